@@ -29,6 +29,16 @@ SHORT = {
  'C18': '`DevInputReader::next`: lost parentheses in `type_ == 1 && (value == 0 || value == 1)`',
  'C19': '`add_new_mapping`: three branches for an action output key collapsed; a key already held for a mapping is pushed twice',
  'C20': 'per-device loop: the error of `send` on tablet-On is logged and swallowed',
+ 'C01b': '`remove_mapping`: tidy-up that drops the `Released(k)` arm for an output key that is physically held but shadowed by another active mapping',
+ 'C06b': '`Mapper::release_all`: "fast path" that returns at once when nothing is down on the output (pressed / absorbed lists and mappings not cleared)',
+ 'C07b': '`release_all_action_keys`: the retain over the passed-through keys dropped (only mapped outputs are lifted)',
+ 'C09b': '`newly_release`: a release that ends no mapping and lifts nothing answers NoChange instead of Disabled',
+ 'C10b': 'per-device loop: at most 8 keyboard events read per readiness notification ("fairness" cap)',
+ 'C12b': '`Mapper::release_all`: walks the pressed keys by index while `newly_release` shrinks the list (every second key skipped)',
+ 'C13d': '`FromSet::new`: the modifiers of a trigger are no longer sorted (the same trigger written in another modifier order is a different table key)',
+ 'C14b': '`convert_row`: a space in `letters` no longer counts towards the row length check (a padded over-long row indexes past the row)',
+ 'C19b': '`release_action_mappings`: the "is it held at all" test dropped when collecting modifiers to lift (Released for a key that is not down)',
+ 'C20b': 'per-device loop: a failed write of a repeat tick is logged and dropped instead of ending the loop',
 }
 rows = []
 for s in sorted(os.listdir('/verif/seeded')):
